@@ -243,3 +243,31 @@ def endo_scalars(n):
     for l in (lam, lam * lam % n):
         out += [l, l + 1, l - 1, 2 * (l + 1), 2 * (l + 1) + 1, n - l, n - l - 1, n - l + 1, 2 * l, 2 * l + 1, 3 * l, l + 2, (l + 1) * 4, (l + 1) * 4 + 3, l + n, 2 * l + 2 * n]
     return [k for k in out if k > 0]
+
+
+def eigen_torsion(E, group_order, q, rng, tries=3):
+    """Points of exact prime order q in the EIGENSPACES of the j = 0 endomorphism sigma (x, y) -> (beta x, y) acting on the
+    rational q-torsion: for q = 1 mod 3, sigma has eigenvalues mu1, mu2 (the primitive cube roots of unity mod q) and
+    (sigma - mu2) T, (sigma - mu1) T lie in the mu1- resp. mu2-eigenspace.  A subgroup test built on the endomorphism with a
+    wrong eigenvalue accepts exactly one such eigenspace; a random torsion point hits it with probability ~1/q."""
+    out = []
+    if q % 3 != 1:
+        return out
+    g = 2
+    while pow(g, (q - 1) // 3, q) == 1:
+        g += 1
+    mu1 = pow(g, (q - 1) // 3, q)
+    mu2 = mu1 * mu1 % q
+    F = E.F
+    for _ in range(tries):
+        T = torsion_point(E, group_order, q, rng)
+        sT = endo(F, T)
+        if not E.on_curve(sT):
+            return out
+        for mu in (mu1, mu2):
+            V = E.add(sT, E.neg(E.mul(T, mu)))
+            if V is not None and E.mul(V, q) is None:
+                out.append(V)
+        if len(out) >= 2:
+            break
+    return out
